@@ -33,7 +33,8 @@ PROPS = {
         "technique": "listing_exact for every legal ListAt behaviour by induction on remaining entries; all sizes x batch sizes x EOF/short-batch behaviours end to end",
         "level_text": "Lean theorems listing_exact / listing_terminates / os_lister_legal / example_lister_legal: for all entry lists, all batch sizes >= 1 and every lister behaviour satisfying the ListerAt contract (EOF with the last entries or on the next call, short batches), the client loop over the server's filelist step returns each entry exactly once in order minus '.' and '..' with the server's attributes within |entries|+1 round trips; necessity witnesses for each configuration fact. Correspondence: Client.ReadDir against a real RequestServer with a scripted lister for every size 0..2*batch+2, batch 1..5, and against the os-backed server on real directories around the 128-entry batch, compared with the model's output (entries, rounds, error).",
         "level_note": "Trusted: Lean kernel; the abstraction of NAME/STATUS packets to (entries | status) (codec is C06/C08); os.File.Readdir(128) assumed to honour its contract (observed on real directories). Names containing '/' are rewritten by path.Base in the client (documented in listing_exact via pathBase; impossible for real directories).",
-        "units": [],
+        "units": ["ListingCfg"],
+        "modules": ["C16", "C16Inst"],
         "assumptions": ["MaxFilelist >= 1", "lister honours the ListerAt contract (Legal)"],
     },
     "C15": {
@@ -50,5 +51,14 @@ PROPS = {
         "units": ["ServerCalls", "ServerPaths"],
         "assumptions": ["names from a small universe, canonical spellings (non-canonical spellings only with VERIF_C05_NONCANON=1)", "umask 022"],
         "timeout": {"quick": 600, "thorough": 3600},
+    },
+    "C10": {
+        "technique": "path confinement for all byte strings (model of path.Clean/Join); regenerated method/call/field/error tables = hand-written Spec; error-kind preservation by case analysis over all errors of the stated families; exhaustive path differential + recording-handler end-to-end run",
+        "level_text": "Lean theorems: withBase_absClean / cleanPath_absClean / confined / clean_idempotent (for ALL byte strings the path a handler sees is absolute and lexically clean, so joining it under a root cannot escape); method_table, call_table, called_exactly_once, fields_table, paths_cleaned (tables regenerated from request.go / request-server.go equal the hand-written Spec; exactly the symlink target and the custom RealPath argument are passed verbatim); error_kind_preserved_now (for every error of the families nil / EOF / not-exist / permission / errno / fxerr, bare or inside os.PathError, LinkError, SyscallError, the kind the client sees after statusFromError -> wire -> normaliseError is the kind the handler returned), interpreted from the regenerated ordered test lists. Correspondence: cleanPathWithBase vs the model exhaustively over all strings of length <= 7/8 over {'/','.','a',0xff}; every request kind x tricky paths x start directories through a real RequestServer with recording handlers; every error term through the real wire.",
+        "level_note": "Trusted: Lean kernel; translator units ReqServer / ErrTables (statement-by-statement shape matchers); hand-written models of stdlib path.Clean/Join (validated exhaustively against Go), os.IsNotExist/IsPermission, errors.Is/As (validated on 526 terms). Outside the stated families (recorded in C10.outside_families): a handler returning a *sftp.StatusError value is answered FAILURE; %w-wrapped os errors are not looked through by the os predicates. OPEN's attribute flags word is not conveyed to handlers (documented reading).",
+        "units": ["ReqServer", "ErrTables", "Consts"],
+        "modules": ["C10", "C10Path", "C10Fixed"],
+        "known_modules": ["Known.C10"],
+        "assumptions": ["linux errno values", "start directory configured through WithStartDirectory (stored clean) or default '/'"],
     },
 }
